@@ -710,7 +710,7 @@ def decide(pid, tier):
     t_start = time.time()
     seed = int(os.environ.get("VERIF_SEED", "0") or 0)
     table = load_table()
-    obs = [o for o in table if pid in o["property"] and (tier == "thorough" or o["tier"] == "quick")]
+    obs = [o for o in table if pid in o["property"] and o["tier"] != "experimental" and (tier == "thorough" or o["tier"] == "quick")]
     if ONLY:
         obs = [o for o in obs if re.search(ONLY, o["obligation"])]
     if not obs:
